@@ -29,7 +29,7 @@ type opsOp struct {
 
 type opsRun struct {
 	ID    string              `json:"id"`
-	Mode  string              `json:"mode"` // gated | free
+	Mode  string              `json:"mode"`  // gated | free
 	Eager bool                `json:"eager"` // gated: operations are invoked as soon as the process is free (no invoke gate)
 	Db0   map[string]world.CP `json:"db0"`
 	Prog  [][]opsOp           `json:"prog"`  // Prog[p-1]
@@ -311,4 +311,3 @@ func execOpsRun(base *world.World, r opsRun, storeKind string, seed int64, dir s
 	rec.add(fin)
 	return rec.ev, drift, nil
 }
-
